@@ -485,6 +485,42 @@ def r5_queue_operations(ctx, mod):
               "greeting = call('greet'); clear_output(); assert_output(greeting, 'Hello Ada') reports that the function "
               "did not print")
 
+def r6_wrappers_pass_inputs_through(ctx, sym):
+    ctx.rule('R6', "the module-level commands (pedal.sandbox.commands.run / call), executed abstractly with a recording "
+                   "sandbox: the `inputs` they hand to Sandbox.run / Sandbox.call is the object they were given - '' "
+                   "(one empty line), [] and () (empty the queue), None (leave the queue alone), a string, a list - so "
+                   "what the execution's record shows is what was queued")
+    from .. import symexec
+    cmod = ctx.repo.module('pedal.sandbox.commands')
+    tool = sym.const(cmod, ast.parse('TOOL_NAME', mode='eval').body)
+    for wname, positional in (('run', []), ('call', ['student_function'])):
+        fn = cmod.func(wname)
+        ctx.analysed_function(cmod, fn)
+        for given in ('', [], (), None, 'Ada', ['Ada', 'Bob']):
+            rec = symexec.Recorder()
+            sb = Obj('sandbox')
+            symexec.method(sb, wname, rec.stub('Sandbox.' + wname, ret=sb))
+            report = Obj('report')
+            report.attrs['method:__getitem__'] = lambda k: {'sandbox': sb} if k == tool else None
+            fd = symexec.new_fd(sym, cmod)
+            _, raised = symexec.run(fd, fn, list(positional), {'inputs': given, 'report': report},
+                                    what='commands.%s' % wname)
+            made = rec.named('Sandbox.' + wname)
+            handed = made[0][2].get('inputs', _ABSENT) if len(made) == 1 else _ABSENT
+            ok = raised is None and len(made) == 1 and (handed is given or (
+                isinstance(given, (str, tuple, type(None))) and handed is not _ABSENT and handed == given
+                and type(handed) is type(given)))
+            ctx.check(ok, 'R6', 'commands.%s[inputs=%r]' % (wname, given), cmod, fn,
+                      "commands.%s(inputs=%r) hands Sandbox.%s %s" % (
+                          wname, given, wname, 'inputs=%r' % (handed,) if handed is not _ABSENT else (
+                              'nothing (raises %s)' % raised.kind if raised is not None else 'no inputs argument')),
+                      "queue_input('Edsger'); run(inputs=[]) - the leftover name is still handed to the program; "
+                      "run(inputs='') - input() returns the default '0' instead of the empty line")
+
+
+_ABSENT = object()
+
+
 def run(ctx):
     mod = ctx.repo.module(SANDBOX)
     sym = Symbols(ctx.repo)
@@ -494,5 +530,6 @@ def run(ctx):
     r3_append_output_table(ctx, mod)
     r4_input_fifo(ctx, mod, sym)
     r5_queue_operations(ctx, mod)
+    r6_wrappers_pass_inputs_through(ctx, sym)
     ctx.assume("output that bypasses sys.stdout (sys.__stdout__, os.write) is not captured; with C05.R1 "
                "_stop_mocking runs on every exit")
